@@ -43,7 +43,8 @@ PROBES = ['kind:smtp', 'kind:lmtp', 'kind:mx', 'kind:pipe', 'kind:pipe1',
           'no-domain', 'lmtp-per-rcpt-failure', 'http-no-reply-header',
           'http-response-body', 'data-354-without-recipients',
           'server-closed-idle-connection', '8bit-without-8bitmime',
-          'lmtp-eod-failure-then-rset-failure']
+          'lmtp-eod-failure-then-rset-failure',
+          'rcpt-and-data-refused-differently']
 STATES_MEASURE = 'distinct (relay kind, fault stage, fault behaviour, pipelining) tuples'
 STEP_CAP = 300000
 SMTP_STAGES = ['connect', 'banner', 'ehlo', 'mail', 'rcpt', 'rcpt', 'data',
@@ -170,7 +171,16 @@ def generate(seed, tier='quick'):
                 if b in ('4xx', '5xx'):
                     if nr == 1:
                         expect = {'whole': _cls(b)}
-                        if rng.random() < 0.5:
+                        c2 = rng.random()
+                        if c2 < 0.25:
+                            # the DATA that follows is refused too, with a
+                            # reply of the other class: what the recipient
+                            # was told decides
+                            txs['data'] = [{'code': '451' if b == '5xx'
+                                            else '554',
+                                            'text': 'no valid recipients'}]
+                            att['data_other_class'] = True
+                        elif c2 < 0.6:
                             # a server that answers the (pipelined) DATA with
                             # 354 although it accepted no recipient: the
                             # client has to send an empty message to get out
@@ -353,7 +363,7 @@ def generate(seed, tier='quick'):
                 expect = {'whole': 'perm' if code[0] == '5' else 'temp'}
                 b = code[0] + 'xx'
             elif c < 0.75:
-                spec = {'status': rng.choice([400, 404, 500, 503]),
+                spec = {'status': rng.choice([400, 404, 500, 503, 302, 304]),
                         'reply_header': rng.choice([
                             None, 'garbled', '', '999; message="bad code"',
                             '099; message="bad code"', '25; message="x"'])}
@@ -568,6 +578,8 @@ def execute(scn, debug=False):
                 world.probe('lmtp-per-rcpt-failure')
             if att['behav'] == 'no-header':
                 world.probe('http-no-reply-header')
+            if att.get('data_other_class'):
+                world.probe('rcpt-and-data-refused-differently')
             if att.get('rset_fails_too'):
                 world.probe('lmtp-eod-failure-then-rset-failure')
             if att.get('data_354_anyway'):
